@@ -201,10 +201,10 @@ pub proof fn lemma_push_pair<E>(am: Seq<Vec<(E, &str)>>, ap: Seq<Vec<(E, &str)>>
 //@before <<<let (annotated_minus_line, annotated_plus_line, distance) = annotate(>>>| let ghost tk = alignment.toks(); proof { assert(*plus_line == plus_lines@[p0 + considered]); }
 //@loop 3| invariant minus_index < minus_lines@.len(), p0 + considered < plus_lines@.len(), refs_of(vit2.seq(), plus_lines@.subrange(p0 as int, p0 + considered)), plus_index == p0 + vit2.index@,
 //@loop 3|     ${INV} minus_index as int, plus_index as int, ${ENVI}),
-//@before <<<annotated_plus_lines.push(vec![(noop_insertions[plus_index], plus_line)]); line_alignment.push((None, Some(plus_index))); plus_index += 1; } annotated_minus_lines.push(annotated_minus_line);>>>| ${SNAP} proof { assert(*plus_line == plus_lines@[plus_index as int]); }
-//@before <<<plus_index += 1; } annotated_minus_lines.push(annotated_minus_line);>>>| proof { let v = annotated_plus_lines@.last(); assert(v@ =~= seq![(noop_insertions@[plus_index as int], *plus_line)]); lemma_cat1((noop_insertions@[plus_index as int], *plus_line)); lemma_push_unpaired_plus(am0, ap0, a0, minus_index as int, plus_index as int, ${ENVI}, v); assert(annotated_plus_lines@ =~= ap0.push(v)); assert(line_alignment@ =~= a0.push((None, Some(plus_index)))); }
+//@after <<<for plus_line in vit2: verif_slice(&plus_lines, plus_index, (plus_index + considered)) {>>>| ${SNAP} proof { assert(*plus_line == plus_lines@[plus_index as int]); }
+//@before#1/3 <<<plus_index += 1;>>>| proof { let v = annotated_plus_lines@.last(); assert(v@ =~= seq![(noop_insertions@[plus_index as int], *plus_line)]); lemma_cat1((noop_insertions@[plus_index as int], *plus_line)); lemma_push_unpaired_plus(am0, ap0, a0, minus_index as int, plus_index as int, ${ENVI}, v); assert(annotated_plus_lines@ =~= ap0.push(v)); assert(line_alignment@ =~= a0.push((None, Some(plus_index)))); }
 //@before <<<annotated_minus_lines.push(annotated_minus_line);>>>| ${SNAP} proof { assert(plus_index == p0 + considered); }
-//@after <<<line_alignment.push((Some(minus_index), Some(plus_index)));>>>| proof { let vm = annotated_minus_lines@.last(); let vp = annotated_plus_lines@.last(); lemma_push_pair(am0, ap0, a0, minus_index as int, plus_index as int, ${ENVI}, vm, vp); assert(annotated_minus_lines@ =~= am0.push(vm)); assert(annotated_plus_lines@ =~= ap0.push(vp)); assert(line_alignment@ =~= a0.push((Some(minus_index), Some(plus_index)))); }
+//@before#2/3 <<<plus_index += 1;>>>| proof { let vm = annotated_minus_lines@.last(); let vp = annotated_plus_lines@.last(); lemma_push_pair(am0, ap0, a0, minus_index as int, plus_index as int, ${ENVI}, vm, vp); assert(annotated_minus_lines@ =~= am0.push(vm)); assert(annotated_plus_lines@ =~= ap0.push(vp)); assert(line_alignment@ =~= a0.push((Some(minus_index), Some(plus_index)))); }
 //@before <<<if !verif_continue_minus_lines_loop {>>>| ${SNAP}
 //@after <<<line_alignment.push((Some(minus_index), None));>>>| proof { let v = annotated_minus_lines@.last(); assert(v@ =~= seq![(noop_deletions@[minus_index as int], *minus_line)]); lemma_cat1((noop_deletions@[minus_index as int], *minus_line)); lemma_push_unpaired_minus(am0, ap0, a0, minus_index as int, plus_index as int, ${ENVI}, v); assert(annotated_minus_lines@ =~= am0.push(v)); assert(line_alignment@ =~= a0.push((Some(minus_index), None))); }
 //@before <<<for plus_line in vit3: verif_slice_from(&plus_lines, plus_index) { if let Some(content)>>>| let ghost p1 = plus_index;
@@ -213,7 +213,7 @@ pub proof fn lemma_push_pair<E>(am: Seq<Vec<(E, &str)>>, ap: Seq<Vec<(E, &str)>>
 //@before <<<if let Some(content) = get_contents_before_trailing_whitespace(plus_line) {>>>| ${SNAP} proof { assert(*plus_line == plus_lines@[plus_index as int]); }
 //@before <<<} else { annotated_plus_lines.push(vec![(noop_insertions[plus_index], plus_line)]);>>>| proof { let v = annotated_plus_lines@.last(); lemma_cat2(v@[0], v@[1]); assert(v@ =~= seq![v@[0], v@[1]]); assert(cat(v@) == (*plus_line)@ && all_tagged(v@, noop_insertions@[plus_index as int])); }
 //@after <<<} else { annotated_plus_lines.push(vec![(noop_insertions[plus_index], plus_line)]);>>>| proof { let v = annotated_plus_lines@.last(); lemma_cat1(v@[0]); assert(v@ =~= seq![v@[0]]); assert(cat(v@) == (*plus_line)@ && all_tagged(v@, noop_insertions@[plus_index as int])); }
-//@before <<<plus_index += 1; } (annotated_minus_lines, annotated_plus_lines, line_alignment)>>>| proof { let v = annotated_plus_lines@.last(); lemma_push_unpaired_plus(am0, ap0, a0, minus_lines@.len() as int, plus_index as int, ${ENVI}, v); assert(annotated_plus_lines@ =~= ap0.push(v)); assert(line_alignment@ =~= a0.push((None, Some(plus_index)))); }
+//@before#3/3 <<<plus_index += 1;>>>| proof { let v = annotated_plus_lines@.last(); lemma_push_unpaired_plus(am0, ap0, a0, minus_lines@.len() as int, plus_index as int, ${ENVI}, v); assert(annotated_plus_lines@ =~= ap0.push(v)); assert(line_alignment@ =~= a0.push((None, Some(plus_index)))); }
 
 } // verus!
 fn main() {}
